@@ -4,7 +4,7 @@ import vlib, chainlib
 from vlib import Report
 
 
-def run_chain_check(pid, tier, replay, mc_quick, mc_thorough, sim_cfg, n_quick, n_thorough, focus, assumptions):
+def run_chain_check(pid, tier, replay, mc_quick, mc_thorough, sim_cfg, n_quick, n_thorough, focus, assumptions, extra_sims=()):
     rep = Report(pid, tier, "model_checking")
     if replay:
         return chainlib.replay_file(rep, pid, replay)
@@ -17,6 +17,11 @@ def run_chain_check(pid, tier, replay, mc_quick, mc_thorough, sim_cfg, n_quick, 
     # (A) TLC-generated behaviours replayed on the real Chain, projection compared after every action
     n = n_thorough if thorough else n_quick
     behs, r = chainlib.gen_sim(sim_cfg, n, vlib.seed(), workers=8 if thorough else 4, timeout=3000)
+    extra = []
+    for cfg, nq, nt in extra_sims:
+        eb, _ = chainlib.gen_sim(cfg, nt if thorough else nq, vlib.seed(), workers=8 if thorough else 4, timeout=3000)
+        extra.append({"config": cfg, "behaviours": len(eb)})
+        behs = behs + eb
     results = chainlib.replay(pid, behs, procs=10 if thorough else 8, twin=True, deep=thorough)
     stats = chainlib.report_results(rep, behs, results)
     rep.coverage = {
@@ -26,7 +31,7 @@ def run_chain_check(pid, tier, replay, mc_quick, mc_thorough, sim_cfg, n_quick, 
         "samples": [chainlib.sample_of(behs[0]), chainlib.sample_of(behs[len(behs) // 2])],
         "model_runs": mcs,
         "invariants_checked": chainlib.INVS_DESC,
-        "behaviour_generator": {"config": sim_cfg, "mode": "tlc -simulate", "seed": vlib.seed()},
+        "behaviour_generator": {"config": sim_cfg, "mode": "tlc -simulate", "seed": vlib.seed(), "extra": extra},
         "replayed_steps": stats["steps"],
         "step_classes_observed": stats["classes"],
         "twin_root_comparisons": stats["twin_checked"],
